@@ -93,7 +93,16 @@ def run_resolve_case(ctx, suite, case, oracle=None, compare=True):
         if oracle:
             oracle(ctx, case, None, ('ctor', lib.err_class(err)))
         return None
-    steps = impl.run_steps(resolver)
+    try:
+        steps = impl.run_steps(resolver)
+    except RecursionError:
+        raise
+    except Exception as err:    # noqa: BLE001 - the resolver's internals are not what the harness expects
+        ctx.count(suite, nontrivial=False)
+        ctx.disagree(suite, case, f'the harness could not drive the resolver level by level: {lib.err_class(err)} {str(err)[:80]}')
+        if oracle:
+            oracle(ctx, case, None, ('drive', lib.err_class(err)))
+        return None
     ctx.count(suite, fingerprint_steps(steps), nontrivial=any(s['result'] == 'ok' and s.get('fine', {}).get('e') for s in steps),
               sample=case['s'])
     if compare and not ctx.oracle_only:
@@ -102,6 +111,30 @@ def run_resolve_case(ctx, suite, case, oracle=None, compare=True):
     if oracle:
         oracle(ctx, case, steps, None)
     return steps
+
+
+def level_definitions_oracle(ctx, case, steps):
+    """the fragment library a level is resolved with is the one written for that level: block i+1 of the
+    string, read on its own (the same fragment name may be defined differently at different levels)"""
+    import re
+    from cgsmiles.read_fragments import read_fragments
+    if not steps or not isinstance(case.get('s'), str):
+        return
+    blocks = re.findall(r"\{[^\}]+\}", case['s'])
+    for st in steps:
+        if 'frags' not in st or st['level'] + 1 >= len(blocks):
+            continue
+        try:
+            with lib.quiet():
+                own = read_fragments(blocks[st['level'] + 1], all_atom=st['all_atom'])
+            want = impl.frags_request(own)
+        except Exception:    # noqa: BLE001 - unreadable on its own: nothing to compare with
+            continue
+        if want != st['frags']:
+            have_names = [n for n, _ in st['frags']]
+            diff = [n for n, g in want if [n, g] not in st['frags']]
+            ctx.fail(slim(case), f'level {st["level"]}: the resolver uses fragment definitions that differ from the ones '
+                                 f'written for this level (names in use {have_names[:6]}, differing or missing {diff[:6]})')
 
 
 def slim(case):
